@@ -90,9 +90,12 @@ def check_statelessness(ctx, funcs):
                 ctx.holds(rule, fi, st, 'triaged exception: ' + exc, wr['line'])
                 continue
             if k in BAD_ROOTS:
+                eff = wr['eff']
+                what = eff.name if eff.kind == 'store_attr' else (canon(eff.name) if eff.kind == 'setattr' and eff.name is not None else '')
+                fkey = '%s: run-time %s on a %s object: .%s' % (fi.cls.name if fi.cls is not None else fi.module, wr['kind'], k, what) if what else None
                 ctx.violation(rule, fi, st, 'run-time write to %s (%s): the object outlives the call and is shared by every packet of the class / every thread'
                               % ({'shared': 'a shared field/descriptor/prototype object', 'global': 'a module global or class attribute',
-                                  'foreign': 'the object returned by a user callable', 'closure': 'a closure cell'}[k], wr['detail']), wr['line'])
+                                  'foreign': 'the object returned by a user callable', 'closure': 'a closure cell'}[k], wr['detail']), wr['line'], key=fkey)
             elif k == 'param':
                 verdict, why = param_mutation_verdict(repo, fi, wr['detail'])
                 if verdict is False:
@@ -130,7 +133,8 @@ def check_statelessness(ctx, funcs):
                 else:
                     ctx.violation('R5-no-compile-at-runtime', fi, st,
                                   'a run-time function calls declaration/class-creation code (%s: %s) on a %s object (%s): it writes the field object while packets are being processed'
-                                  % (m, COMPILE_PHASE_NAMES[m], k, d), e.lineno)
+                                  % (m, COMPILE_PHASE_NAMES[m], k, d), e.lineno,
+                                  key='%s: run-time call of %s on a %s object' % (fi.cls.name if fi.cls is not None else fi.module, m, k))
     ctx.unit('write_effects', nwrites)
 
 
